@@ -114,6 +114,7 @@ type chainRun struct {
 	atxs   map[int]aTx
 	iscb   map[int]bool
 	views  []savedView
+	base   uint64 // CachedStateSize right after the first required flush of the current chain object (0 = not yet seen)
 }
 
 type savedView struct {
@@ -316,6 +317,7 @@ func execChain(c cfg, ops []string, slot int) string {
 		txs: map[int]*btcutil.Tx{}, atxs: map[int]aTx{}, iscb: map[int]bool{}}
 	r.in = newInst(r.b.params, c.cache, slot)
 	defer r.in.close()
+	r.base = 0
 	var out []string
 	for _, op := range ops {
 		switch op[0] {
@@ -376,7 +378,18 @@ func execChain(c cfg, ops []string, slot int) string {
 					mid = id
 				}
 			}
-			out = append(out, fmt.Sprintf("d=%s;m=%d", r.absEntries(rows, false), mid))
+			// after a required flush the cache accounts for nothing but its empty map: the same size
+			// after every required flush of one chain object
+			z := 0
+			if r.base == 0 {
+				r.base = r.in.chain.CachedStateSize()
+			}
+			if r.in.chain.CachedStateSize() == r.base {
+				z = 1
+			} else if os.Getenv("VERIF_DEBUG") != "" {
+				fmt.Fprintf(os.Stderr, "cached state size %d, empty %d\n", r.in.chain.CachedStateSize(), r.base)
+			}
+			out = append(out, fmt.Sprintf("d=%s;m=%d;z=%d", r.absEntries(rows, false), mid, z))
 		case 'X', 'Y':
 			// unclean shutdown: the chain object (cache included) is dropped without a flush and a
 			// new one is started on the same database with a possibly different cache size; Y starts
@@ -401,6 +414,7 @@ func execChain(c cfg, ops []string, slot int) string {
 				continue
 			}
 			r.in.chain = ch
+			r.base = 0
 			out = append(out, "ok")
 		case 'V':
 			id := atoi(op[1:])
@@ -438,6 +452,7 @@ func execChain(c cfg, ops []string, slot int) string {
 				continue
 			}
 			r.in.chain = ch
+			r.base = 0
 			out = append(out, "ok")
 		case 'O':
 			out = append(out, r.observe())
